@@ -128,9 +128,29 @@ class Matcher:
         # ---- state
         obs = out.get("obs") or {}
         allowed_f = None
-        if rp is not None and not obs.get("absent"):
+        if ee and ee.get("cls") == "SimStorageError" and inst is not None and not obs.get("absent"):
+            # after a storage error only consistency is demanded: the machine's view equals whatever
+            # the model now holds; the reference is re-synchronised from the stored value
+            fld = obs.get("field")
+            sid = rp.id_of_value.get(vkey(fld)) if fld is not None else None
+            if fld is None:
+                inst.state = None
+            elif sid is None:
+                inst.state = {"$invalid": fld}
+            else:
+                inst.state = sid
+                if obs.get("cs") != sid:
+                    self.add("view_vs_model", n, field=fld, current_state=obs.get("cs", obs.get("cs_err")))
+            del inst.queue[:]
+            self.stats["storage_faults"] = self.stats.get("storage_faults", 0) + 1
+        elif rp is not None and not obs.get("absent"):
             es = exp.get("state")
-            if es is None:
+            if isinstance(es, dict):
+                if obs.get("cs_err") != "InvalidStateValue":
+                    self.add("op_state", n, expected="InvalidStateValue", actual=obs.get("cs"))
+                if canon(obs.get("field")) != canon(_encv(es.get("$invalid"))):
+                    self.add("model_field", n, expected=es.get("$invalid"), actual=obs.get("field"))
+            elif es is None:
                 if obs.get("csv") is not None:
                     self.add("op_state", n, expected=None, actual=obs.get("csv"))
             else:
